@@ -7,6 +7,10 @@
 use super::*;
 include!("verif_bounds.rs");
 
+/// memory is never freed (see verif_generate.rs::stub_dealloc)
+unsafe fn stub_dealloc(_ptr: *mut u8, _layout: std::alloc::Layout) {}
+
+
 const IGNORE: &[u8] = b"breadlog:ignore";
 
 fn comment_regex() -> Regex
@@ -106,6 +110,7 @@ fn applies_body(block: bool, blank_line: bool, multibyte_subject: bool)
 
 /// `//<blank>breadlog:ignore<blank>\n<blank>S`: the directive applies to S, in every letter case
 #[kani::proof]
+#[kani::stub(std::alloc::dealloc, stub_dealloc)]
 #[kani::unwind(40)]
 fn u_directive_line()
 {
@@ -114,6 +119,7 @@ fn u_directive_line()
 
 /// `/*<blank>breadlog:ignore<blank>*/`, a blank line in between, and a two-byte first character of S
 #[kani::proof]
+#[kani::stub(std::alloc::dealloc, stub_dealloc)]
 #[kani::unwind(40)]
 fn u_directive_block()
 {
@@ -162,6 +168,7 @@ fn no_effect_body(variant: u8)
 
 /// one more word in the comment (before / after), a code line in between, directive after the statement
 #[kani::proof]
+#[kani::stub(std::alloc::dealloc, stub_dealloc)]
 #[kani::unwind(40)]
 fn u_directive_other_text()
 {
@@ -170,6 +177,7 @@ fn u_directive_other_text()
 }
 
 #[kani::proof]
+#[kani::stub(std::alloc::dealloc, stub_dealloc)]
 #[kani::unwind(40)]
 fn u_directive_separated()
 {
@@ -179,6 +187,7 @@ fn u_directive_separated()
 
 /// arbitrary small text: the scan never panics (C17) and never reports a directive that is not there
 #[kani::proof]
+#[kani::stub(std::alloc::dealloc, stub_dealloc)]
 #[kani::unwind(40)]
 fn u_directive_freeform()
 {
@@ -218,6 +227,7 @@ fn u_directive_freeform()
 /// LogRefEntry::extract_reference (real regex literal through the shim, real str::parse::<u32>)
 /// against the rule of C12 on `[ref: ` followed by exactly NDIGITS arbitrary digits and a closer
 #[kani::proof]
+#[kani::stub(std::alloc::dealloc, stub_dealloc)]
 #[kani::unwind(40)]
 fn u_extract()
 {
@@ -253,6 +263,7 @@ fn u_extract()
 
 /// near misses of the token head are not references
 #[kani::proof]
+#[kani::stub(std::alloc::dealloc, stub_dealloc)]
 #[kani::unwind(40)]
 fn u_extract_heads()
 {
